@@ -275,9 +275,25 @@ def _completion_lists(prog: Program, fn: FuncInfo, loop: LoopSummary) -> List[st
         for t in tests:
             if not any(isinstance(x, _ast.Attribute) and x.attr in LIVE_ATTRS for x in _ast.walk(t)):
                 continue
+            # subscripts that are themselves queried for liveness (processes[i].is_alive()) are the handles, not the flags
+            handles = {id(x.value) for x in _ast.walk(t) if isinstance(x, _ast.Attribute) and isinstance(x.value, _ast.Subscript)}
             for x in _ast.walk(t):
-                if isinstance(x, _ast.Subscript) and isinstance(x.value, _ast.Name) and x.value.id in candidates and x.value.id not in out:
+                if isinstance(x, _ast.Subscript) and id(x) not in handles and isinstance(x.value, _ast.Name) and x.value.id in candidates and x.value.id not in out:
                     out.append(x.value.id)
+        # the same filter hoisted out of the waiting loop: `pending = [i for i, f in enumerate(flags) if not f]`, then the liveness test
+        # ranges over `pending`
+        bound = {}
+        for n in _ast.walk(tree):
+            if isinstance(n, _ast.Assign) and len(n.targets) == 1 and isinstance(n.targets[0], _ast.Name) and isinstance(n.value, (_ast.ListComp, _ast.GeneratorExp, _ast.SetComp)):
+                bound[n.targets[0].id] = n.value
+        for n in _ast.walk(tree):
+            if isinstance(n, _ast.comprehension) and any(isinstance(x, _ast.Attribute) and x.attr in LIVE_ATTRS for i_ in n.ifs for x in _ast.walk(i_)) \
+                    and isinstance(n.iter, _ast.Name) and n.iter.id in bound:
+                for g_ in bound[n.iter.id].generators:
+                    if g_.ifs:
+                        for x in _ast.walk(g_.iter):
+                            if isinstance(x, _ast.Name) and x.id in candidates and x.id not in out:
+                                out.append(x.id)
         return out
 
     names: List[str] = []
@@ -383,8 +399,74 @@ def rule_keepbest(ctx: Ctx, prog: Program) -> None:
             _mv(ctx, fn, name, okk, "returns the incumbent", "returns-incumbent", f"{name}: must return the incumbent", rule="R-KEEPBEST")
 
 
+def _liveness_environment(ctx: Ctx, prog: Program) -> None:
+    """Two things outside the receive loop decide whether the liveness test can work at all.  (a) Process.is_alive() learns that a child
+    died by reaping it (waitpid); with SIGCHLD set to SIG_IGN the kernel reaps children itself, waitpid fails with ECHILD and is_alive()
+    answers True for ever.  (b) The error raised by the liveness test must leave solve() / optimize(): a handler around the receive call
+    that goes on with the loop turns 'a worker died' back into waiting."""
+    import ast
+
+    mod = f"{prog.package}.solvers.multiprocessing_solver"
+    n_sig = 0
+    for f in prog.all_functions():
+        if ".examples." in f.module:
+            continue
+        for n in ast.walk(f.node):
+            if isinstance(n, ast.Call) and ast.unparse(n.func) in ("signal.signal", "signal") and len(n.args) == 2 and "SIGCHLD" in ast.unparse(n.args[0]):
+                n_sig += 1
+                ctx.violation("R-LIVENESS", f.path, f.qualname, "sigchld-handler", f"{f.path}:{n.lineno}",
+                              f"{f.qualname} installs `{ast.unparse(n)[:60]}`: with SIGCHLD ignored (or handled elsewhere) the children are reaped behind "
+                              "multiprocessing's back, Process.is_alive() keeps answering True for a dead worker and the liveness test of the receive "
+                              "loop never fires -- a killed worker makes the call wait for ever")
+    if not n_sig:
+        ctx.ok("R-LIVENESS", "no SIGCHLD disposition is installed anywhere in the package", nontrivial=False)
+    # (c) a generator is consumed by its first traversal: bound before the waiting loop and traversed inside it, the second liveness check
+    # of one wait ranges over nothing
+    m_ = prog.modules.get(mod)
+    n_gen = 0
+    for f in (list(m_.functions.values()) + [x for c in m_.classes.values() for x in c.values()]) if m_ else []:
+        loops_ = [n for n in ast.walk(f.node) if isinstance(n, (ast.While, ast.For))]
+        in_loop = {id(x) for l_ in loops_ for b_ in l_.body for x in ast.walk(b_)}
+        for n in ast.walk(f.node):
+            if isinstance(n, ast.Assign) and id(n) not in in_loop and len(n.targets) == 1 and isinstance(n.targets[0], ast.Name) and (
+                    isinstance(n.value, ast.GeneratorExp) or (isinstance(n.value, ast.Call) and isinstance(n.value.func, ast.Name)
+                                                              and n.value.func.id in ("map", "filter", "zip", "iter", "enumerate", "reversed"))):
+                nm = n.targets[0].id
+                uses = [x for x in ast.walk(f.node) if isinstance(x, ast.Name) and x.id == nm and isinstance(x.ctx, ast.Load) and id(x) in in_loop]
+                if uses:
+                    n_gen += 1
+                    ctx.violation("R-LIVENESS", f.path, f.qualname, f"one-shot-iterator:{nm}", f"{f.path}:{uses[0].lineno}",
+                                  f"{f.qualname} binds `{nm}` to a one-shot iterator (`{ast.unparse(n.value)[:50]}`) before a loop and traverses it inside the loop: "
+                                  "the first traversal exhausts it, every later iteration sees nothing -- after the first time-out the liveness test has no "
+                                  "candidates left and a worker that dies later is never noticed")
+    if not n_gen:
+        ctx.ok("R-LIVENESS", "no one-shot iterator is bound outside a loop and traversed inside it", nontrivial=False)
+    for name in ("MultiprocessingSolver.solve", "MultiprocessingSolver.optimize"):
+        fn = prog.func(mod, name)
+        swallowed = None
+        for n in ast.walk(fn.node):
+            if not isinstance(n, ast.Try):
+                continue
+            receives = any(isinstance(x, ast.Call) and ast.unparse(x.func).split(".")[-1] in ("get_message", "get") for b in n.body for x in ast.walk(b))
+            if not receives:
+                continue
+            for h in n.handlers:
+                catches = h.type is None or any(t in ast.unparse(h.type) for t in ("RuntimeError", "Exception", "BaseException"))
+                leaves = any(isinstance(x, (ast.Raise, ast.Return)) for b in h.body for x in ast.walk(b))
+                if catches and not leaves:
+                    swallowed = h
+        if swallowed is None:
+            ctx.ok("R-LIVENESS", f"{name}: the error raised by the liveness test leaves the call")
+        else:
+            ctx.violation("R-LIVENESS", fn.path, name, "liveness-error-swallowed", f"{fn.path}:{swallowed.lineno}",
+                          f"{name} catches the error raised when a worker died (`except {ast.unparse(swallowed.type) if swallowed.type else ''}`) and goes on "
+                          "with the receive loop: unless the bookkeeping of that handler is exact for every combination of dead workers, the loop waits "
+                          "for markers that will never come (e.g. two workers dying within one polling period)")
+
+
 def rule_liveness(ctx: Ctx, prog: Program) -> None:
     ctx.rule("R-LIVENESS")
+    _liveness_environment(ctx, prog)
     LIVE = ("is_alive", "join", "exitcode", "sentinel")
     for name in ("MultiprocessingSolver.solve", "MultiprocessingSolver.optimize"):
         p = Parent(prog, name)
